@@ -164,6 +164,15 @@ theorem code_task_best_inBox (sk : Skeleton) (hsk : sk ∈ Gen.taskSkeletons) (l
   task_best_inBox ⟨sk, Gen.searchClip, Gen.genericSweep⟩ lbs ubs o (code_taskSkeletons_good sk hsk) lbs ubs
     (code_searchClip_clipsInto lbs ubs hb) ho code_genericSweep_isRule hk pop best h0 N
 
+/-- **C02 in full (generic sweep).**  With an objective below the sentinel and a non-empty population the reported best is, from
+    the first sweep on, an evaluated pair whose fitness is the minimum of everything the sweeps evaluated. -/
+theorem code_task_best_is_min (sk : Skeleton) (hsk : sk ∈ Gen.taskSkeletons) (c : ClipLoop) (lbs ubs : List Int)
+    (o : TaskOracle) (hk : BestKept o) (pop : List Ag) (best : Ag) (hlt : ∀ x, o.f x < best.fit)
+    (hne : (o.hook 0 (pop, best)).1 ≠ []) (N : Nat) :
+    let s := TaskProg.runTask ⟨sk, c, Gen.genericSweep⟩ lbs ubs o (TaskSt.start pop best) N
+    (s.best.pos, s.best.fit) ∈ s.evals ∧ ∀ e ∈ s.evals, s.best.fit ≤ e.2 :=
+  task_best_is_min ⟨sk, c, Gen.genericSweep⟩ lbs ubs o (code_taskSkeletons_good sk hsk) code_genericSweep_isRule hk pop best hlt hne N
+
 /-! ### the hypotheses are satisfiable; the model runs (tests, not theorems about all inputs) -/
 
 namespace TaskExample
